@@ -12,7 +12,8 @@ EXPLANATION = (
     "the constant 1000 with checked_mul; Timestamp::duration_since dispatches Os->Os and Tsc->Tsc only, each as "
     "self.duration_since(earlier) in that direction.")
 NOT_DECIDED = ["monotonicity / additivity (consequences of the formula, not checked separately)",
-               "the precision clause: measure_precision against a uniform-step clock is a runtime convergence property"]
+               "the precision clause beyond R11.3: that the probing converges on a given uniform-step clock is a run-time matter; R11.3 decides that what is "
+               "reported is the smallest non-zero difference observed and never the sentinel"]
 
 
 def def_rv(b, op):
@@ -161,6 +162,83 @@ def r11_2(ctx, prog, crate):
         ctx.check(len(div) >= 1, "R11.2", ["Timestamp::duration_since", "mixed-kinds-unreachable"], "mixed timestamp kinds do not diverge", b.where(0))
 
 
+def r11_3(ctx, prog, crate):
+    """Structural part of the precision clause (the convergence itself is a run-time matter): Timer::measure_precision
+    reports the SMALLEST NON-ZERO step it observed - the running minimum starts at the sentinel FineDuration::MAX, is
+    only ever replaced by a sample that compared Less, zero samples never reach the comparison, and the minimum is
+    returned only on an arm of `sample.cmp(&min)` that is Greater or Equal (so a real sample has been seen and the
+    sentinel can never be reported)."""
+    b = prog.body("time::timer::Timer::measure_precision", crate)
+    if not ctx.anchor("R11.3", "Timer::measure_precision", 1 if b else 0, 1):
+        return
+    ctx.saw(b)
+    ds = [c for c in b.live_calls() if c.callee == "time::timestamp::Timestamp::duration_since"]
+    cm = [c for c in b.live_calls() if c.callee.rsplit("::", 1)[-1] == "cmp" and len(c.args) == 2]
+    if not ctx.check(len(ds) == 1 and len(cm) == 1, "R11.3", ["measure_precision", "one-sample-one-comparison"], "duration_since x%d cmp x%d" % (len(ds), len(cm)), b.where(0)):
+        return
+    ds, cm = ds[0], cm[0]
+    ctx.check(any(z.kind == "call" and z.b == ds.bb for z in b.prov.op_src(cm.args[0])), "R11.3", ["measure_precision", "compares-the-sample"],
+              "the comparison's receiver is not the sample just measured", cm.line())
+    # the running minimum: the local behind the comparison's second operand
+    from .C03 import _root_local
+    ml = _root_local(b, cm.args[1])
+    defs = b.prov.defs.get(ml, []) if ml is not None else []
+    sw = tables.switch_on_call_result(b, cm)
+    if not ctx.check(ml is not None and sw is not None, "R11.3", ["measure_precision", "match-on-ordering"], "no match on the comparison's result", cm.line()):
+        return
+    arms, otherwise = tables.arm_targets(sw[1])
+    # Ordering: Less = -1 (0xff), Equal = 0, Greater = 1
+    less_t = arms.get(255, arms.get(-1, otherwise))
+    eq_t = arms.get(0, otherwise)
+    gt_t = arms.get(1, otherwise)
+    targets = {less_t, eq_t, gt_t}
+    ctx.check(len(targets) == 3, "R11.3", ["measure_precision", "three-arms"], "Less/Equal/Greater arms are not distinct (%s)" % sorted(targets), b.where(sw[0]))
+    lp = b.innermost_loop(cm.bb)
+    stop = [lp["header"]] if lp else []
+    less_blocks = tables.exclusive_blocks(b, less_t, [eq_t, gt_t], stop=stop)
+    init = [d for d in defs if d[0] == "S" and lp is not None and d[1] not in lp["body"] and not any(d[1] in l["body"] for l in b.loops)]
+    upd = [d for d in defs if d not in init]
+    ok_init = len(init) == 1 and init[0][3]["rv"]["k"] == "use" and init[0][3]["rv"]["o"]["k"] == "const" and "FineDuration::MAX" in str(init[0][3]["rv"]["o"]["c"].get("uneval") or init[0][3]["rv"]["o"]["c"].get("d"))
+    ctx.check(ok_init, "R11.3", ["measure_precision", "starts-at-the-sentinel"], "the running minimum does not start at FineDuration::MAX", b.where(init[0][1]) if init else b.where(0))
+    ok_upd = len(upd) >= 1 and all(d[0] == "S" and d[1] in less_blocks and any(z.kind == "call" and z.b == ds.bb for z in b.prov._rv(d[3]["rv"], (), frozenset(), d[1], d[2])) for d in upd)
+    ctx.check(ok_upd, "R11.3", ["measure_precision", "replaced-only-by-a-smaller-sample"],
+              "the running minimum is assigned outside the Less arm or from something other than the sample", b.where(upd[0][1]) if upd else b.where(0))
+    # returns of the minimum
+    rets = [(bi, s) for bi, si, s in b.stmts() if s["k"] == "assign" and s["p"]["l"] == 0 and not s["p"]["proj"]]
+    bad = []
+    for bi, s in rets:
+        from_min = s["rv"]["k"] == "use" and s["rv"]["o"]["k"] in ("copy", "move") and _root_local(b, s["rv"]["o"]) == ml
+        on_arm = b.dominates(eq_t, bi) or b.dominates(gt_t, bi)
+        if not (from_min and on_arm):
+            bad.append(b.where(bi))
+    ctx.check(bool(rets) and not bad, "R11.3", ["measure_precision", "reported-after-a-real-sample"],
+              "measure_precision returns at %s without standing on the Greater/Equal arm of a comparison with a measured sample: the sentinel FineDuration::MAX "
+              "(or something other than the minimum) can be reported" % bad, b.where(0))
+    # zero samples never reach the comparison
+    zs = [c for c in b.live_calls() if c.callee.endswith("FineDuration::is_zero") and any(z.kind == "call" and z.b == ds.bb for z in b.prov.op_src(c.args[0]))]
+    okz = False
+    for c in zs:
+        for x, t in b.switches():
+            if t["discr"]["k"] in ("copy", "move") and t["discr"]["p"]["l"] == c.dest["l"]:
+                f_t = [a[1] for a in t["arms"] if a[0] == "0"]
+                okz = bool(f_t) and b.dominates(f_t[0], cm.bb) and cm.bb not in b.reach([t["otherwise"]], avoid=stop + [f_t[0]])
+    ctx.check(okz, "R11.3", ["measure_precision", "zero-samples-discarded"], "a zero difference can reach the comparison with the running minimum", cm.line())
+    # Timer::precision returns the measured value (cached per timer kind)
+    pb = prog.body("time::timer::Timer::precision", crate)
+    if ctx.anchor("R11.3", "Timer::precision", 1 if pb else 0, 1):
+        tree = prog.closure_tree(pb)
+        names = {c.callee for x in tree for c in x.live_calls()}
+        ctx.check("time::timer::Timer::measure_precision" in names, "R11.3", ["Timer::precision", "is-the-measured-value"], "Timer::precision does not come from measure_precision", pb.where(0))
+        idx = [s for bi, si, s in pb.stmts() if s["k"] == "assign" and s["rv"]["k"] == "ref" and any(pr["k"] == "index" for pr in s["rv"]["p"]["proj"])]
+        okk = False
+        for s in idx:
+            pr = [p_ for p_ in s["rv"]["p"]["proj"] if p_["k"] == "index"][0]
+            src = pb.prov.local_src(pr["l"])
+            okk = okk or (any(z.kind in ("discr", "call") for z in src) and any(z.kind == "param" for z in src))
+        ctx.check(okk or not idx, "R11.3", ["Timer::precision", "cached-per-kind"], "the precision cache is not indexed by the timer's kind", pb.where(0))
+
+
 def run(ctx, prog, crate):
+    r11_3(ctx, prog, crate)
     r11_1(ctx, prog, crate)
     r11_2(ctx, prog, crate)
